@@ -219,6 +219,30 @@ class GhostCallbacks:
     def append(self, cb):
         self.appended.append(cb)
 
+    def __getattr__(self, name):
+        # Anything else fit asks of its callback list is answered by a real CallbackList holding a user callback whose six
+        # hooks are all inherited from an intermediate base class of the user's (neither set on the instance nor defined by
+        # its own class): introspection of the list must not make fit drop events such a callback is entitled to.
+        if name.startswith("__"):
+            raise AttributeError(name)
+        from qucumber.callbacks import CallbackList, CallbackBase
+
+        class _UserBase(CallbackBase):
+            def on_train_start(self, s): pass
+            def on_train_end(self, s): pass
+            def on_epoch_start(self, s, e): pass
+            def on_epoch_end(self, s, e): pass
+            def on_batch_start(self, s, e, b): pass
+            def on_batch_end(self, s, e, b): pass
+
+        class _UserCallback(_UserBase):
+            pass
+        real = self.__dict__.get("_real_list")
+        if real is None:
+            real = CallbackList([_UserCallback()])
+            self.__dict__["_real_list"] = real
+        return getattr(real, name)
+
     # -- events
     def on_train_start(self, st):
         w = self.w
